@@ -3,7 +3,7 @@ import itertools, os, subprocess
 import gen_errno, gen_filetype
 from vlib import REPO
 
-FSTAT_WRAP = "-Wl,--wrap=fstat,--wrap=fstat64"   # h_c15.c can fake the device / inode numbers file_equals sees
+FSTAT_WRAP = "-Wl,--wrap=fstat,--wrap=fstat64,--wrap=mkdir"   # h_c15.c can fake the device / inode numbers file_equals sees
 
 def hx(s): return s.encode().hex() or "-"
 
@@ -45,7 +45,7 @@ def run(ck):
     except Exception as e:
         ck.machinery_error("translator failed: %r" % (e,)); return
     if not ck.build_driver(): return
-    if not ck.prove(["ZixModel.Properties.C15", "ZixModel.Properties.C15Link", "ZixModel.Properties.C15LinkInst"]):
+    if not ck.prove(["ZixModel.Properties.C15", "ZixModel.Properties.C15Link", "ZixModel.Properties.C15LinkInst", "ZixModel.Properties.C15Race"]):
         ck.report_proof_failure("theorems about the filesystem model / regenerated file-type table no longer build")
     srcs = ["h_c15.c"] + [os.path.join(REPO, "src", f) for f in ["posix/filesystem_posix.c", "system.c", "errno_status.c", "filesystem.c", "path.c", "string_view.c", "allocator.c", "posix/system_posix.c"]]
     exe = ck.cc("h_c15", srcs, flags=[FSTAT_WRAP])
@@ -67,6 +67,13 @@ def run(ck):
             lines.append("mkdirs %s | %s" % (" ".join(tree), hx(sh)))
             ck.count_distinct(("mkl", tuple(tree), sh), True)
     lines.append("mkdirs | -")
+    # a racing creator: between the library's "is it a directory?" test and its mkdir another process creates the same path,
+    # as a directory (the call must still succeed) or as a file (the call must fail)
+    for tree in [[], ["d:a"], ["d:a", "d:a/b"], ["f:a"], ["d:a", "l:k>a"], ["l:k>nowhere"]]:
+        for sh in ["a", "a/b", "a/b/c", "k/x/y", "a//b/", "./a/../a/b", "x/y/z/w"]:
+            for ds, fs in [("0", "-"), ("1", "-"), ("0,1,2,3", "-"), ("2", "-"), ("-", "0"), ("-", "1"), ("0", "1"), ("1", "0"), ("-", "-")]:
+                lines.append("mkdirsrace %s %s %s | %s" % (ds, fs, " ".join(tree), hx(sh)))
+                ck.count_distinct(lines[-1])
     sizes = [0, 1, 2, 511, 512, 513, page - 1, page, page + 1, 2 * page, 3 * page - 1, 3 * page, 3 * page + 1]
     for la in sizes:
         for lb in sizes:
@@ -81,6 +88,13 @@ def run(ck):
     for da, ia, db, ib in [(-1, 42, -1, 42), (1000000007, 42, 1000000009, 42), (-1, 0, -1, 0), (-1, 42, -1, 43), (1000000007, 0, 1000000007, 0), (1000000007, 7, 1000000007, 7), (-1, 42, 1000000009, 42)]:
         for same in (0, 1):
             lines.append("feqino %d %d %d %d %d" % (da, ia, db, ib, same)); ck.count_distinct(lines[-1])
+    # files whose fstat reports a size of zero whatever they hold (procfs text files, FIFOs, devices): still "identical bytes"
+    for la, lb in [(0, 0), (0, 1), (1, 0), (0, 300), (5, 5), (5, 6), (513, 513), (page, page), (page, page + 1), (page + 1, page), (2 * page, 2 * page), (2 * page, page)]:
+        for d in sorted(set([-1, 0, lb - 1]) if lb else [-1]):
+            for za, zb in [(1, 1), (1, 0), (0, 1)]:
+                for alloc in ("ok", "fail"):
+                    lines.append("feqz %d %d %d %d %d %s" % (la, lb, d, za, zb, alloc)); ck.count_distinct(lines[-1])
+    lines.append("feqproc")
     lines.append("feqmissing")
     for k in ["reg", "dir", "fifo", "lnkreg", "lnkdir", "dangling", "chr", "sock", "missing"]: lines.append("ftype " + k)
     for k in ["missing", "0", "1", "4096", "70000"]: lines.append("fsize " + k)
